@@ -106,6 +106,7 @@ var (
 	NotAppl bool   // the planned fault kind does not apply to the call at FaultAt
 	CLIMode bool   // crash = os.Exit(137)
 	open    = map[*File]bool{}
+	Ambient int                 // see verifhook.Ambient (set by the drivers)
 	PathMap func(string) string // display mapping for logs (strips scratch root)
 	OnCall  func(Call)
 )
@@ -461,17 +462,34 @@ func SameFile(a, b FileInfo) bool { return os.SameFile(a, b) }
 func DirFS(dir string) fs.FS      { return os.DirFS(dir) }
 
 // ambient inputs: held fixed
-func Getenv(k string) string             { return os.Getenv(k) }
-func LookupEnv(k string) (string, bool)  { return os.LookupEnv(k) }
+func Getenv(k string) string {
+	v := os.Getenv(k)
+	if Ambient != 0 && k != "TEMPLATE_DEBUG" {
+		return fmt.Sprintf("%s-alt%d", v, Ambient)
+	}
+	return v
+}
+func LookupEnv(k string) (string, bool) {
+	v, ok := os.LookupEnv(k)
+	if Ambient != 0 && k != "TEMPLATE_DEBUG" {
+		return fmt.Sprintf("%s-alt%d", v, Ambient), true
+	}
+	return v, ok
+}
 func Setenv(k, v string) error           { return os.Setenv(k, v) }
 func Unsetenv(k string) error            { return os.Unsetenv(k) }
 func Environ() []string                  { return os.Environ() }
 func ExpandEnv(s string) string          { return os.ExpandEnv(s) }
-func Getpid() int                        { return 4242 }
-func Getppid() int                       { return 4241 }
+func Getpid() int                        { return 4242 + 17*Ambient }
+func Getppid() int                       { return 4241 + 13*Ambient }
 func Getuid() int                        { return 1000 }
 func Getgid() int                        { return 1000 }
-func Hostname() (string, error)          { return "simhost", nil }
+func Hostname() (string, error) {
+	if Ambient != 0 {
+		return fmt.Sprintf("simhost%d", Ambient), nil
+	}
+	return "simhost", nil
+}
 func Getwd() (string, error)             { return os.Getwd() }
 func Chdir(d string) error               { return os.Chdir(d) }
 func TempDir() string                    { return os.TempDir() }
